@@ -13,15 +13,17 @@ from .engine import CaseTimeout
 
 def make_partition(rng, kind=None):
     """generator of step counts for run_model(num_steps=k, initialize_model=False)"""
-    kind = kind or rng.choice(["ones", "small", "mixed", "large", "all"])
+    kind = kind or rng.choice(["ones", "small", "medium", "mixed", "large", "all"])
     def gen():
         while True:
             if kind == "ones":
                 yield 1
             elif kind == "small":
                 yield rng.randint(1, 7)
+            elif kind == "medium":
+                yield rng.randint(8, 60)
             elif kind == "mixed":
-                yield rng.choice([1, 1, 2, 3, 10, 30, 90, 400])
+                yield rng.choice([1, 1, 2, 3, 10, 30, 90, 400, rng.randint(1, 40), rng.randint(1, 40)])
             elif kind == "large":
                 yield rng.choice([30, 100, 365, 1000])
             else:
